@@ -91,7 +91,7 @@ package tracer
 
 //@ func (*http2RetryCollector).newAttempt
 //@   requires h != nil
-//@   modifies held, mapof(http2RetryCollector.waiting), ghosts:rtm*
+//@   modifies held @ h.mu, mapof(http2RetryCollector.waiting), ghosts:rtm*
 //@   ensures !held[h.mu] && !has(h.waiting, testName)
 
 // response headers: the response is recorded once and the response tracer is bound to the
@@ -164,13 +164,15 @@ package tracer
 
 //@ func (*tracingHTTP2Conn).handleFrame
 //@   requires c != nil && wfH2Frame(frame)
-//@   requires forall d *dataTracer :: slicebase(d.prefix) == 0 || slicebase(d.prefix) != h2DataBase(frame) //# a frame's payload buffer is the Framer's, never a tracer's private prefix buffer
 //@   modifies @h2state
 //@   ensures !held[c.mu]
 //@   //# assumption about peers: no response DATA precedes the response HEADERS of its stream (the byte counter of an
 //@   //# unbound response tracer would otherwise be carried into the envelope accounting; it cannot crash, see DESIGN 11)
 //@   assert_at "stream.builder.setRequestTrailers(makeHeaders(frame))": wfStream(stream) && forall id int :: has(c.streams, id) ==> wfStream(c.streams[id])
 //@   assert_at "stream.builder.setResponseTrailers(makeHeaders(frame))": wfStream(stream) && forall id int :: has(c.streams, id) ==> wfStream(c.streams[id])
+//@   //# a frame's payload lives in the Framer's own read buffer, never in a body tracer's private prefix buffer
+//@   assume_at "stream.requestTracer.trace(frame.Data())": slicebase(fieldaddr(stream, requestTracer).prefix) == 0 || slicebase(fieldaddr(stream, requestTracer).prefix) != h2DataBase(box(frame))
+//@   assume_at "stream.responseTracer.trace(frame.Data())": slicebase(fieldaddr(stream, responseTracer).prefix) == 0 || slicebase(fieldaddr(stream, responseTracer).prefix) != h2DataBase(box(frame))
 //@   assume_at "c.receiveResponseLocked(stream, frame)": fieldaddr(stream, responseTracer).actual == 0
 
 // ---- frame splitter ----
